@@ -1,10 +1,12 @@
 #!/bin/bash
-# Re-runs every kept seeded change against the quick check of its property (and C15 for C08-b).
+# Re-runs every kept seeded change against the quick check that its record names first in "caught_by"
+# (the targeted property itself when the record names none, e.g. the documented needles).
 # usage: selftest/seedmatrix.sh [glob]
 cd "$(dirname "$0")/.."
 ls -d seeded/${1:-*} | xargs -P 4 -I{} bash -c '
   d="{}"; n=$(basename "$d"); id="${n%%-*}"
-  [ "$n" = C08-b ] && id=C15
+  by=$(python3 -c "import json,re,sys; cb=json.load(open(sys.argv[1]+\"/meta.json\")).get(\"caught_by\",\"\"); m=None if cb.startswith(\"NOT\") else re.search(r\"C\d\d\", cb); print(m.group(0) if m else \"\")" "$d")
+  [ -n "$by" ] && id="$by"
   out=$(selftest/mut.sh "$d/patch.diff" "$id" quick 2>&1); e=$(echo "$out" | grep -m1 "^exit=" | cut -d= -f2)
   case "$e" in 1) r=CAUGHT;; 0) r=MISSED;; *) r="OTHER($e)";; esac
   echo "$r $n by $id :: $(echo "$out" | grep -m1 -A1 "^VIOLATION" | tail -1 | cut -c1-140)"
